@@ -15,8 +15,11 @@ Open Scope Z_scope.
 
 Record tobs := {
   o_tl : Z; o_tt : Z; o_cols : option Z; o_rows : option Z;
-  o_idx : list (nat * nat)      (* per yielded row: (index into the table, disguise pairs) *)
+  o_dis : Z;                    (* disguise pairs appended to every yielded row *)
+  o_idx : list Z                (* per yielded row: index into the table *)
 }.
+(** short constructor name: the case files hold thousands of observations *)
+Definition Ob := Build_tobs.
 
 Record tcase := {
   c_gfx : bool;                 (* graphics-based image *)
@@ -25,7 +28,8 @@ Record tcase := {
   c_ha : nat; c_va : nat;
   c_lines : list (list tok);    (* the canvas's [_ti_lines] *)
   c_tbl : list (list tok);      (* distinct observed rows *)
-  c_full : list (nat * nat);    (* rows of [content()] *)
+  c_fd : Z;                     (* disguise pairs observed on the rows of [content()] *)
+  c_full : list Z;              (* rows of [content()] *)
   c_obs : list tobs
 }.
 
@@ -45,8 +49,8 @@ Definition drows_eqb (a b : list (list tok * nat)) : bool :=
   if list_eq_dec drow_dec a b then true else false.
 
 (** ** the observed rows of an observation *)
-Definition lookup (c : tcase) (ix : list (nat * nat)) : list (list tok * nat) :=
-  map (fun p => (nth (fst p) (c_tbl c) [TCut CutCsi], snd p)) ix.
+Definition lookup (c : tcase) (ix : list Z) (d : Z) : list (list tok * nat) :=
+  map (fun i => (nth (Z.to_nat i) (c_tbl c) [TCut CutCsi], Z.to_nat d)) ix.
 
 (** ** hypothesis validation: the canvas's lines have the shape of the theorems *)
 
@@ -91,7 +95,7 @@ Definition shape_ok (c : tcase) : bool :=
 
 (** ** model side *)
 Definition model_obs (c : tcase) (o : tobs) : bool :=
-  let obs := lookup c (o_idx o) in
+  let obs := lookup c (o_idx o) (o_dis o) in
   if c_gfx c then
     drows_eqb obs (content_gfx (c_W c) (c_H c) (c_lines c) (c_d c)
                                (o_tl o) (o_tt o) (o_cols o) (o_rows o))
@@ -124,7 +128,7 @@ Definition in_canvas (c : tcase) (o : tobs) : bool :=
 Definition spec_obs (c : tcase) (full : list (list tok * nat)) (o : tobs) : bool :=
   let cols := want (o_cols o) (c_W c - o_tl o) in
   let rows := want (o_rows o) (c_H c - o_tt o) in
-  let obs := lookup c (o_idx o) in
+  let obs := lookup c (o_idx o) (o_dis o) in
   in_canvas c o
   && (Z.of_nat (length obs) =? rows)
   && if c_gfx c then
@@ -142,7 +146,7 @@ Definition spec_obs (c : tcase) (full : list (list tok * nat)) (o : tobs) : bool
                           (map (fun r => vis_row (fst r)) full)).
 
 Definition spec_ok (c : tcase) : bool :=
-  let full := lookup c (c_full c) in
+  let full := lookup c (c_full c) (c_fd c) in
   (Z.of_nat (length full) =? c_H c)
   && (c_gfx c || forallb (row_ok (c_W c)) full)
   && forallb (spec_obs c full) (c_obs c).
@@ -158,7 +162,7 @@ Definition bad (cases : list tcase) : list (nat * nat) :=
 (** for reports: shape ok?, then per observation (index, model agrees, specification holds)
     for the observations that fail either *)
 Definition explain (c : tcase) :=
-  let full := lookup c (c_full c) in
+  let full := lookup c (c_full c) (c_fd c) in
   (c_gfx c || shape_ok c, Z.of_nat (length (c_lines c)) =? c_H c,
    filter (fun t => negb (snd (fst t) && snd t))
           (map (fun p => (fst p, model_obs c (snd p), spec_obs c full (snd p)))
